@@ -100,6 +100,9 @@ void RetireList<T, D>::retire(T* data) {
   }
   do {
     node->next = get_node(head);
+    // head变化说明期间有其他节点入链，需要重新取时间戳
+    // 否则陈旧的时间戳压在更新的节点之上，会使其被提前回收
+    new_head = make_head(node, get_current_timestamp());
   } while (!_head.compare_exchange_weak(head, new_head,
                                         ::std::memory_order_acq_rel));
 }
